@@ -273,5 +273,24 @@ def run(ctx):
     uss = F.one('SuppressionList::updateSuppressionState')
     wr = {a['n'].split('::')[-1] for a in uss['acc'] if a['n'].startswith(S + '::') and a['a'] != 'r'}
     ok = {'checked', 'matched'} <= wr
+    # monotone merge: the stored flags only ever go from false to true (an OR over all workers); `flag = true` or `flag |= x` / `flag = flag || x`
+    ub = F.body(uss)['body']
+    nonmono = []
+    for x in walk(ub):
+        if x.get('k') in ('BinaryOperator', 'CompoundAssignOperator') and x.get('op') in ('=', '|=', '&=') and sfields(x['c'][0]) and sfields(x['c'][0])[0] in ('checked', 'matched'):
+            rhs = strip(x['c'][1])
+            while rhs is not None and rhs.get('k') == 'ImplicitCastExpr' and rhs.get('c'):
+                rhs = rhs['c'][0]
+            fld = sfields(x['c'][0])[0]
+            if x['op'] == '|=':
+                continue
+            if x['op'] == '=' and rhs is not None and rhs.get('k') == 'CXXBoolLiteralExpr' and rhs.get('v') is True:
+                continue
+            if x['op'] == '=' and rhs is not None and rhs.get('k') == 'BinaryOperator' and rhs.get('op') == '||' and fld in sfields(rhs):
+                continue
+            nonmono.append((fld, x['l']))
+    ctx.ob('R24.3', 'update-monotone', not nonmono, 'updateSuppressionState only raises the stored checked / matched flags (OR over all workers)' if not nonmono else
+           'updateSuppressionState overwrites the stored %s flag at line %s instead of OR-ing it: a worker that only checked a suppression resets the match another worker found, '
+           'so the unmatched-suppression report depends on which worker is merged last' % nonmono[0], '%s:%s' % (uss['file'], nonmono[0][1] if nonmono else uss['line']))
     ctx.ob('R24.3', 'update-merges-both', ok, 'updateSuppressionState merges both checked and matched' if ok else
            'updateSuppressionState does not merge %s' % sorted({'checked', 'matched'} - wr), '%s:%d' % (uss['file'], uss['line']))
